@@ -677,8 +677,6 @@ cgsisx(superlu_options_t *options, SuperMatrix *A, int *perm_c, int *perm_r,
     }
 
     if ( options->PivotGrowth ) {
-	if ( *info > 0 ) return;
-
 	/* Compute the reciprocal pivot growth factor *recip_pivot_growth. */
 	*recip_pivot_growth = cPivotGrowth(A->ncol, AA, perm_c, L, U);
     }
